@@ -79,6 +79,10 @@ shadow = [modent(path('d'), module(defs=[T('Late', [], [F('v', u32)])])),
           modent(path('b'), module(defs=[T('FooVftable', [], [F('x', u64), F('y', u64)])]))]
 W['C09/generated_shadows_import'] = case('generated-shadows-import', 8, shadow,
     prio=[path('b', 'FooVftable'), path('c', 'T'), path('a', 'Foo'), path('d', 'Late')])
+# a user type that is structurally EQUAL to the generated vftable struct of its namesake (both empty): accepted when the user's
+# type is resolved first (the clash test compares the two items and finds them equal), a conflict when the owner is attempted first
+W['C09/user_equals_generated'] = one(module(defs=[T('Foo', [], [vftable([], [])]), T('FooVftable', [], [])]), 'user-equals-generated',
+    ps=8, prio=[path('m', 'FooVftable'), path('m', 'Foo')])
 W['C09/sig'] = one(sig, 'generated-vftable-in-signature', prio=[path('m', 'A'), path('m', 'B')])
 
 # --- C13: accepted by pyxis, rejected by rustc (open findings); ps 8 so that the host compiler can be used
